@@ -256,7 +256,7 @@ def apply_or_template(rng, cfg, case):
     ax = g.atom()
     g.var_ids = [z]
     az = g.atom()
-    variant = rng.choice((0, 1, 2, 3, 3))
+    variant = rng.choice((0, 1, 2, 3, 3, 4, 4))
     if variant == 0:
         disj = ('or', join('a', 'a'), rng.choice([join('b', 'a'), join('a', 'b'), ax]))
         case['cond'] = [rng.choice([('and', disj, az), ('and', az, disj)])] if rng.random() < 0.5 else \
@@ -268,7 +268,12 @@ def apply_or_template(rng, cfg, case):
         px, qx = g.atom(), g.atom()
         g.var_ids = [z]
         yz = g.atom()
-        if variant == 1:
+        if variant == 4:
+            # a disjunction over (x, z) inside the LEFT operand of a conjunction that is itself the left side of a
+            # disjunction whose other side needs the non-selected z again: or_(and_(or_(P(x), A(z)), Q(x)), Y(z)) - a true
+            # output of the inner disjunction does not decide the conjunction
+            case['cond'] = [('or', ('and', ('or', px, az), qx), yz)]
+        elif variant == 1:
             case['cond'] = [('and', join('a', 'a'), ('and', ('or', px, qx), yz))]
         elif variant == 2:
             case['cond'] = [('and', az, ('or', ('and', px, qx), join('b', 'b')))]
